@@ -80,7 +80,7 @@ class SecretRegistry:
         return self.search_bytes(text.encode('utf-8', 'replace'))
 
 
-def walk(obj, reg, seen=None, depth=0, path='obj'):
+def walk(obj, reg, seen=None, depth=0, path='obj', db_rows=False):
     """__dict__/container walk restricted to bitcoinlib classes and builtin containers; ints compared by value."""
     if seen is None:
         seen = set()
@@ -101,24 +101,25 @@ def walk(obj, reg, seen=None, depth=0, path='obj'):
         return '%s contains %s' % (path, hit) if hit else None
     if isinstance(obj, (list, tuple, set, frozenset)):
         for i, x in enumerate(obj):
-            r = walk(x, reg, seen, depth + 1, '%s[%d]' % (path, i))
+            r = walk(x, reg, seen, depth + 1, '%s[%d]' % (path, i), db_rows)
             if r:
                 return r
         return None
     if isinstance(obj, dict):
         for k, v in obj.items():
-            r = walk(v, reg, seen, depth + 1, '%s[%r]' % (path, k)) or walk(k, reg, seen, depth + 1, path + '.key')
+            r = walk(v, reg, seen, depth + 1, '%s[%r]' % (path, k), db_rows) or walk(k, reg, seen, depth + 1, path + '.key')
             if r:
                 return r
         return None
     mod = type(obj).__module__ or ''
-    if mod.startswith('bitcoinlib') and not mod.startswith('bitcoinlib.db'):
+    if mod.startswith('bitcoinlib') and (db_rows or not mod.startswith('bitcoinlib.db')):
         d = getattr(obj, '__dict__', None)
         if d:
             for k, v in d.items():
-                if k in ('session', '_session', '_dbkey', '_dbwallet', 'wallet', 'hdwallet', '_engine'):
+                if k in ('session', '_session', '_dbkey', '_dbwallet', 'wallet', 'hdwallet', '_engine',
+                         '_sa_instance_state'):
                     continue        # database handles / back-references, not part of the exported object
-                r = walk(v, reg, seen, depth + 1, '%s.%s' % (path, k))
+                r = walk(v, reg, seen, depth + 1, '%s.%s' % (path, k), db_rows)
                 if r:
                     return r
     return None
@@ -362,7 +363,8 @@ class C16Objects:
                     obj.main_key.wif
                     obj.main_key.key().wif_private()
                 elif c == 'key_objects':
-                    for k in obj.keys()[:4]:
+                    ks = obj.keys()
+                    for k in ks[:4] + ks[-4:]:
                         obj.key(k.id).key()
                 done.append(c)
             except StopRun:
@@ -504,6 +506,19 @@ class C16Objects:
                 raise
             except Exception as e:
                 w.probe('view_raised:%s' % type(e).__name__)
+        # the dictionaries themselves (not only their text): objects they carry along are part of the export
+        for name, fn in [('as_dict()', lambda: wl.as_dict()), ('keys(as_dict=True)', lambda: wl.keys(as_dict=True))]:
+            try:
+                hit = walk(fn(), self.reg, db_rows=True)
+            except StopRun:
+                raise
+            except Exception as e:
+                hit = None
+                w.probe('view_raised:%s' % type(e).__name__)
+            w.probe('default_dict_walked')
+            if hit:
+                w.violation('private_material_in_default_export', {'view': 'Wallet.%s objects' % name},
+                            'Wallet.%s after priming %s carries an object that holds %s' % (name, primed, hit))
         k = wl.get_key()
         for name, fn in [('as_dict()', lambda: k.as_dict()), ('repr', lambda: repr(k))]:
             try:
